@@ -101,6 +101,7 @@ inductive Act
   | swap (a b : Nat)                        -- exchange two handles (RefCount::Ptr::swap)
   | setInl (d tag : Nat) (val : List Nat)   -- inline value into the empty slot d (thread-local)
   | give (v tid' : Nat)                     -- hand the C++ object in slot v over to another thread
+  | clr (t : Nat)                           -- `data = &emptyData` / the default constructor after a destructor: the stale pointer is gone
   -- handles embedded in a payload block c (slot `embSlot c`), used by threads that do not own that slot:
   | incE (t c v : Nat)                      -- copy the embedded handle of c into the empty own slot t (+ increment); the thread
                                             --   holds block c through its own slot v (a shared payload is read-only)
@@ -220,6 +221,10 @@ def astep (s : St) (tid : Nat) : Act → Option St
     else none
   | .give v tid' =>
     if v < s.n ∧ s.owner v = tid ∧ s.pc tid = .idle then some { s with owner := upd s.owner v tid' } else none
+  | .clr t =>
+    -- the model forgets the pointer at the decrement already; this step marks the point where the C++ object
+    -- really loses it (see Stale.lean: reading the slot between `dec` and this point is a misuse)
+    if t < s.n ∧ s.owner t = tid ∧ s.pc tid = .idle ∧ (s.slots t).isBlk = false then some s else none
 
 /-- `n` slots, all empty and owned by thread 0, empty heap -/
 def init (n : Nat) : St :=
@@ -311,8 +316,9 @@ def mapPut : List Nat → Nat → Nat → List Nat
   | k' :: v' :: r, k, v => if k' = k then k' :: v :: r else k' :: v' :: mapPut r k v
   | _, k, v => [k, v]
 
-/-- `if(data->ref && Atomic::decrement(data->ref) == 0) delete …; data = &static` -/
-def rel (d : Nat) : List Act := [.dec d, .free]
+/-- `if(data->ref && Atomic::decrement(data->ref) == 0) delete …; data = &static` (or: destructor, then a
+    constructor re-initialises the object) -/
+def rel (d : Nat) : List Act := [.dec d, .free, .clr d]
 
 /-- allocation sites of String data: constructor from (ptr, len), copy of unowned data, assignment of
     unowned data, detach(minCapacity) -/
